@@ -9,7 +9,7 @@
 From Coq Require Import Permutation.
 From Soy Require Import Proofs.MsgIdProofs.
 From Soy Require Import Model.Bytes Model.Outcome Model.Num Model.Values Model.Ast Model.MsgId
-  Model.Escape Model.Interp Model.MsgParts Spec.MsgCat Proofs.MsgPartsProofs Proofs.InterpRelProofs Proofs.MsgCatProofs.
+  Model.Escape Model.Interp Model.MsgParts Spec.MsgCat Proofs.MsgPartsProofs Proofs.InterpRelProofs Proofs.InterpPosProofs Proofs.MsgCatProofs.
 Open Scope N_scope.
 
 (* ------------------------------------------------------------------ *)
@@ -69,35 +69,45 @@ Print Assumptions C11_validate_complete.
 
 (* A translation is a list of text segments and of placeholder occurrences of
    the source; the translator writes [msgstr_of tr]; rendering writes every text
-   segment and renders every placeholder where the translation puts it.
-   [coherent body]: placeholders carrying one name stand for one node -- by
-   C10_names_distinct equal names mean equal String() texts, and by C17's
-   print_injective equal String() texts mean equal expressions; here it is an
-   explicit hypothesis on the message. *)
+   segment and fills every placeholder slot by rendering the first placeholder of
+   the message that carries the slot's name ([resolve]) -- no hypothesis on the
+   names. *)
 Theorem C11_translation_places_values : forall plural_index bd w mp id body tr,
-  forallb flat_node body = true -> coherent body -> items_from body tr ->
+  forallb flat_node body = true -> items_named body tr ->
   parts_clean (map item_part tr) ->
   bundle_message bd id = Some (new_message [] [msgstr_of tr]) ->
-  eval_msg plural_index bd w mp id body = run_items w tr.
+  eval_msg plural_index bd w mp id body = run_items w (map (resolve body) tr).
 Proof. exact translation_places_values. Qed.
 Print Assumptions C11_translation_places_values.
 
+(* [coherent body]: placeholders carrying one name are the same code (the same
+   node up to positions).  Then every slot holds the code the translation names. *)
+Theorem C11_resolve_same : forall phs tr, coherent phs -> items_from phs tr -> same_items (map (resolve phs) tr) tr.
+Proof. exact resolve_same. Qed.
+Print Assumptions C11_resolve_same.
+
 (* in particular a translation whose placeholders are a permutation of the source's *)
 Theorem C11_reorder_catalogue : forall plural_index bd w mp id body tr,
-  forallb flat_node body = true -> coherent body ->
+  forallb flat_node body = true ->
   Permutation (ph_items tr) (ph_items (source_items body)) ->
   parts_clean (map item_part tr) ->
   bundle_message bd id = Some (new_message [] [msgstr_of tr]) ->
-  eval_msg plural_index bd w mp id body = run_items w tr.
+  eval_msg plural_index bd w mp id body = run_items w (map (resolve body) tr).
 Proof. exact reorder_catalogue. Qed.
 Print Assumptions C11_reorder_catalogue.
+
+Theorem C11_reorder_same : forall body tr,
+  coherent body -> Permutation (ph_items tr) (ph_items (source_items body)) ->
+  same_items (map (resolve body) tr) tr.
+Proof. exact reorder_same. Qed.
+Print Assumptions C11_reorder_same.
 
 (* the identity translation (msgstr = msgid) of a message that Validate accepts
    renders the message's own text segments and placeholders in source order *)
 Theorem C11_identity_flat : forall plural_index bd w mp id body,
-  reads_back body = true -> coherent body ->
+  reads_back body = true ->
   bundle_message bd id = Some (new_message [] [write_body body]) ->
-  eval_msg plural_index bd w mp id body = run_items w (identity_items body).
+  eval_msg plural_index bd w mp id body = run_items w (map (resolve body) (identity_items body)).
 Proof. exact identity_flat. Qed.
 Print Assumptions C11_identity_flat.
 
@@ -129,17 +139,18 @@ Print Assumptions C11_plural_selects.
 (* ... and a form renders its items where the translation puts them *)
 Theorem C11_plural_form_places_values : forall w p vn pv pc cv cb dflt strs k tr,
   forallb flat_node cb = true -> forallb flat_node dflt = true ->
-  coherent (dflt ++ cb) -> items_from (dflt ++ cb) tr ->
+  items_named (dflt ++ cb) tr ->
   nth_error strs k = Some (msgstr_of tr) -> parts_clean (map item_part tr) ->
-  eval_form w [NMsgPlural p vn pv [NMsgPluralCase pc cv cb] dflt] strs k = run_items w tr.
+  eval_form w [NMsgPlural p vn pv [NMsgPluralCase pc cv cb] dflt] strs k = run_items w (map (resolve (dflt ++ cb)) tr).
 Proof. exact plural_form_places_values. Qed.
 Print Assumptions C11_plural_form_places_values.
 
 Theorem C11_identity_form : forall w p vn pv pc cv cb dflt strs k src,
-  reads_back cb = true -> reads_back dflt = true -> coherent (dflt ++ cb) ->
+  reads_back cb = true -> reads_back dflt = true ->
   (src = cb \/ src = dflt) ->
   nth_error strs k = Some (write_body src) ->
-  eval_form w [NMsgPlural p vn pv [NMsgPluralCase pc cv cb] dflt] strs k = run_items w (identity_items src).
+  eval_form w [NMsgPlural p vn pv [NMsgPluralCase pc cv cb] dflt] strs k =
+  run_items w (map (resolve (dflt ++ cb)) (identity_items src)).
 Proof. exact identity_form. Qed.
 Print Assumptions C11_identity_form.
 
@@ -214,10 +225,20 @@ Theorem C11_coherent_of_naming : forall order mbody es nm (phs : list (N * bstr 
   is_perm order -> msg_entries mbody = Ok es -> msg_names order mbody = Ok nm ->
   (forall p base str n, In (p, base, str, n) phs -> In (base, str) es) ->
   (forall p base str n p' base' str' n',
-      In (p, base, str, n) phs -> In (p', base', str', n') phs -> str = str' -> n = n') ->
+      In (p, base, str, n) phs -> In (p', base', str', n') phs -> str = str' -> pstrip n = pstrip n') ->
   coherent (map (ph_of nm) phs).
 Proof. exact coherent_of_naming. Qed.
 Print Assumptions C11_coherent_of_naming.
+
+(* the walker renders the same code the same way wherever it stands in the source
+   (up to the error-position register): what makes "the first placeholder with
+   that name" as good as the one the translator meant *)
+Theorem C11_walker_position_insensitive : forall cf (okm : N -> list node -> Prop),
+  (forall body, okm 0 body) ->
+  Forall (fun t => okP okm (t_node t)) (r_templates (c_reg cf)) ->
+  forall f b1 b2, okP okm b1 -> okP okm b2 -> pstrip b1 = pstrip b2 -> mrel (walk cf f b1) (walk cf f b2).
+Proof. exact walk_pos. Qed.
+Print Assumptions C11_walker_position_insensitive.
 
 (* the tree walker itself respects the equivalence (one unfolding, any related walkers) *)
 Theorem C11_walker_parametric : forall cf (okm : N -> list node -> Prop),
@@ -234,12 +255,14 @@ Print Assumptions C11_walker_parametric.
 
 Definition ex_name : node := NPrint 7 (NDataRef 8 (b "name") []) [].
 Definition ex_n : node := NPrint 25 (NDataRef 26 (b "n") []) [].
+Definition ex_name2 : node := NPrint 51 (NDataRef 52 (b "name") []) [].     (* {$name} once more, elsewhere *)
 Definition ex_body : list node :=
   [NRawText 1 (b "Hello "); NMsgPlaceholder 7 (b "NAME") ex_name; NRawText 14 (b ", you have ");
    NMsgPlaceholder 25 (b "N") ex_n; NRawText 29 (b " "); NMsgPlaceholder 30 (b "START_BOLD") (NMsgHtmlTag 30 (b "<b>"));
-   NRawText 33 (b "new"); NMsgPlaceholder 36 (b "END_BOLD") (NMsgHtmlTag 36 (b "</b>")); NRawText 40 (b " messages")].
+   NRawText 33 (b "new"); NMsgPlaceholder 36 (b "END_BOLD") (NMsgHtmlTag 36 (b "</b>")); NRawText 40 (b " messages, ");
+   NMsgPlaceholder 51 (b "NAME") ex_name2].
 
-Example ex_msgid : msgid ex_body = Ok (b "Hello {NAME}, you have {N} {START_BOLD}new{END_BOLD} messages").
+Example ex_msgid : msgid ex_body = Ok (b "Hello {NAME}, you have {N} {START_BOLD}new{END_BOLD} messages, {NAME}").
 Proof. vm_compute. reflexivity. Qed.
 Example ex_validate : validate ex_body = Ok tt.
 Proof. vm_compute. reflexivity. Qed.
@@ -263,6 +286,9 @@ Proof.
   repeat (destruct H1 as [H1|H1]; [try discriminate; injection H1 as <- <- <-|]); try destruct H1;
     repeat (destruct H2 as [H2|H2]; [try discriminate; try (injection H2 as _ <-; reflexivity); injection H2 as _ Hn _; vm_compute in Hn; discriminate|]); destruct H2.
 Qed.
+(* the second {$name} is resolved to the first one: another node, the same code *)
+Example ex_resolve : map (resolve ex_body) [TPh 51 (b "NAME") ex_name2] = [TPh 51 (b "NAME") ex_name] /\ ex_name <> ex_name2 /\ pstrip ex_name = pstrip ex_name2.
+Proof. repeat split; [discriminate]. Qed.
 
 (* the reversed plural-free catalogue of this message, end to end in the model *)
 Example ex_parts_roundtrip : parts (b "{N} messages pour {NAME}") = [PPh (b "N"); PText (b " messages pour "); PPh (b "NAME")].
